@@ -601,6 +601,44 @@ fn write_phase(cfg: &Cfg, gt: &[Gt], m: &Mutation, cs: usize) -> Vec<(String, St
         Err(e) => return vec![(format!("C08/write/{}/undecodable", m.name), e)],
     };
     let mut v = diff_confined(&pre_dev, &post_dev, &pre, &post, m);
+    // the target's own entry: a data / size / timestamp change must not touch its name bytes, case flags,
+    // attributes (and, unless timestamps were set, its creation stamp)
+    if matches!(m.name, "append-cluster-to-fragmented-file" | "overwrite-in-place" | "truncate-at-cluster-size" | "set-timestamps") {
+        for t in &m.targets {
+            let find = |d: &Decoded| -> Option<[u8; 32]> {
+                for dir in &d.dirs {
+                    for e in &dir.entries {
+                        let p = if dir.path == "/" { format!("/{}", e.name) } else { format!("{}/{}", dir.path, e.name) };
+                        if p.eq_ignore_ascii_case(t) {
+                            return Some(dir.slots[e.slot_sfn]);
+                        }
+                    }
+                }
+                None
+            };
+            match (find(&pre), find(&post)) {
+                (Some(a), Some(b)) => {
+                    let may_change = |i: usize| -> bool {
+                        matches!(i, 18..=19 | 20..=21 | 22..=25 | 26..=27 | 28..=31) || (m.name == "set-timestamps" && matches!(i, 13..=17))
+                    };
+                    for i in 0..32 {
+                        if a[i] != b[i] && !may_change(i) {
+                            let field = match i {
+                                0..=10 => "short-name",
+                                11 => "attributes",
+                                12 => "case-flags",
+                                _ => "creation-stamp",
+                            };
+                            v.push((format!("C08/write/{}/target-entry-{field}-changed", m.name), format!("{t}: byte {i} of its directory entry changed {:#04x} -> {:#04x}", a[i], b[i])));
+                            break;
+                        }
+                    }
+                }
+                (Some(_), None) => v.push((format!("C08/write/{}/target-entry-lost", m.name), format!("{t} is no longer listed under its name"))),
+                _ => {}
+            }
+        }
+    }
     // every file the mutation was not asked to change keeps its content
     let targets: Vec<String> = m.targets.iter().map(|t| t.to_ascii_lowercase()).collect();
     let flat = post.flat();
